@@ -94,7 +94,7 @@ def correspondence(ctx):
 # ------------------------------------------------------------------ X: real backends vs exact statistics
 def rand_table(rng, n_variants, id_kind):
     ids = {"int": [0, 1, 2, 3], "str": ["a", "b", "c", "d"], "bool": [False, True]}[id_kind][:n_variants]
-    style = rng.choice(["ints", "floats", "offset", "ties", "mixed", "tiny"])
+    style = rng.choice(["ints", "floats", "offset", "ties", "mixed", "tiny", "narrow"])
     off = rng.choice([10**6, 10**9, 10**12]) if style == "offset" else 0
     data = {"variant": [], **{c: [] for c in COLS}, "junk": []}
     for v in ids:
@@ -105,6 +105,8 @@ def rand_table(rng, n_variants, id_kind):
                     x = rng.randint(-5, 30)
                 elif style == "ties":
                     x = rng.choice([1, 1, 2, 5])
+                elif style == "narrow":    # integers whose squares / products do not fit the narrow dtype they are stored in
+                    x = [rng.randint(50_000, 100_000), rng.randint(200, 320), rng.randint(12, 100), rng.randint(46_000, 47_000)][i]
                 elif style == "tiny":      # a genuine spread far below 1e-8 (exactly representable values)
                     x = rng.randint(-50, 50) * 2.0 ** -40
                 else:
@@ -144,6 +146,21 @@ def accessor_fails(a, req, v):
     return out
 
 
+def _narrow(kind, tab, dtypes):
+    """store the columns in narrow integer dtypes (what a parquet file or a database export often holds)"""
+    if kind == "pandas":
+        return tab.astype(dtypes)
+    if kind in ("polars", "polars-lazy"):
+        import polars as pl
+        m = {"int32": pl.Int32, "int16": pl.Int16, "int8": pl.Int8}
+        return tab.with_columns([pl.col(c).cast(m[t]) for c, t in dtypes.items()])
+    import pyarrow as pa
+    m = {"int32": pa.int32(), "int16": pa.int16(), "int8": pa.int8()}
+    for c, t in dtypes.items():
+        tab = tab.set_column(tab.schema.get_field_index(c), c, tab[c].cast(m[t]))
+    return tab
+
+
 def exact_stats(data, rows, COLS=COLS):
     def col(c):
         return [F(data[c][i]) for i in rows]
@@ -168,7 +185,12 @@ def check_backend(case):
     cols = [ren.get(c, c) for c in COLS]
     fails = []
     try:
-        tab = B.make_table(case["backend"], data)
+        # money columns declared DECIMAL(10, 2) in SQL (the values have at most two decimals in the styles below)
+        decl = ({c: "DECIMAL(10, 2)" for c in cols} if case["backend"] == "ibis-sqlite" and case.get("decimal")
+                and style in ("ints", "ties", "mixed") else None)
+        tab = B.make_table(case["backend"], data, decl) if decl else B.make_table(case["backend"], data)
+        if style == "narrow" and case["backend"] != "ibis-sqlite":
+            tab = _narrow(case["backend"], tab, dict(zip(cols, ["int32", "int16", "int8", "int32"])))
         if case.get("rechunk") and case["backend"] in ("pyarrow", "polars", "polars-lazy"):
             from props.C02 import _rechunk
             tab = _rechunk(case["backend"], tab, rng)     # several chunks, e.g. a first chunk of one row
@@ -224,7 +246,7 @@ def oracle(ctx, deep=False):
         case = {"backend": ctx.rng.choice(B.KINDS), "id_kind": id_kind,
                 "n_variants": ctx.rng.choice([1, 2, 2, 3, 4]) if id_kind != "bool" else 2,
                 "grouped": ctx.rng.random() < 0.75, "request": rand_request(ctx.rng), "seed": ctx.rng.randint(0, 10**9),
-                "rechunk": ctx.rng.random() < 0.5}
+                "rechunk": ctx.rng.random() < 0.5, "decimal": ctx.rng.random() < 0.5}
         if ctx.rng.random() < 0.3:
             case["names"] = dict(zip(COLS, ctx.rng.sample(EXOTIC, len(COLS))))
         elif ctx.rng.random() < 0.15:
